@@ -321,11 +321,16 @@ func runSCIONServer(ctx context.Context, log *slog.Logger, mtrcs *scionServerMet
 				decoded[len(decoded)-2] == slayers.LayerTypeEndToEndExtn {
 				authOpt, err = e2eLayer.FindOption(slayers.OptTypeAuthenticator)
 				if err == nil && len(authOpt.OptData) != scion.PacketAuthOptDataLen {
-					log.LogAttrs(ctx, slog.LevelInfo, "failed to authenticate packet",
-						slog.String("cause", "unexpected authenticator option data"))
-					continue
+					if scion.PacketAuthOptIsFor(authOpt, scion.PacketAuthSPIClient) {
+						log.LogAttrs(ctx, slog.LevelInfo, "failed to authenticate packet",
+							slog.String("cause", "unexpected authenticator option data"))
+						continue
+					}
+					// an authenticator of another protocol, of a size of its own:
+					// not for the time service to check
+					authOpt = nil
 				}
-				if err == nil {
+				if err == nil && authOpt != nil {
 					spi, algo := scion.PacketAuthOptMetadata(authOpt)
 					if spi == scion.PacketAuthSPIClient && algo == scion.PacketAuthAlgorithm {
 						hostASKey, err := fetcher.FetchHostASKey(ctx, drkey.HostASMeta{
